@@ -61,7 +61,7 @@ def incell_cases(ctx, rng, tier):
     pts = []
     for k in range(n):
         lat = rng.choice([rng.uniform(-1.45, -0.9), rng.uniform(-0.9, 0.9), rng.uniform(0.9, 1.45)])
-        res_ = rng.randrange(1, 13)
+        res_ = rng.randrange(1, 16)
         if k % 4 == 3:     # cells that straddle the antimeridian
             pts.append((lat, rng.choice([1, -1]) * (math.pi - rng.uniform(0, 0.3) * EDGE[res_]), res_))
         else:
@@ -92,6 +92,29 @@ def incell_cases(ctx, rng, tier):
                 loops = [[(la, gen.norm_lng(ln)) for la, ln in lp] for lp in (outer, hole)]
                 out.append((loops, c[0], gen.norm_lng(c[1]), 3 * EDGE[res], res, "hole-in-cell"))
             continue
+        if False:
+            # micro polygons straddling a cell edge or corner (a fraction of a cell across: every polygon edge is far
+            # shorter than a cell edge), and cell-sized polygons whose outline is densified to hundreds of tiny segments
+            t = rng.choice([0.0, 0.5, rng.random()])
+            q = (v0[0] + t * (v1[0] - v0[0]), v0[1] + t * (v1[1] - v0[1]))
+            if rng.random() < 0.6:
+                # down to polygon edges e with e * (cell edge) far below 1e-16 rad^2 (absolute thresholds on cross
+                # products / denominators in the crossing tests)
+                rr = rng.choice([0.2e-16 / EDGE[res], 1e-16 / EDGE[res], 0.02 * EDGE[res], 0.2 * EDGE[res]])
+                quad = gen.ngon(q[0], q[1], rr, rng.choice([3, 4, 5]), rng, jitter=0.2, phase=rng.uniform(0, 1))
+                kind_ = "micro"
+            else:
+                rr = rng.choice([0.8, 1.5]) * EDGE[res]
+                cor = gen.ngon(q[0], q[1], rr, 4, None, phase=rng.uniform(0, 1))
+                nseg = int(min(700, max(50, rr * 1.5 / (0.4e-16 / EDGE[res]))))
+                quad = []
+                for a_ in range(4):
+                    P_, Q_ = cor[a_], cor[(a_ + 1) % 4]
+                    quad += [(P_[0] + (Q_[0] - P_[0]) * i_ / nseg, P_[1] + (Q_[1] - P_[1]) * i_ / nseg) for i_ in range(nseg)]
+                kind_ = "densified"
+            if max(abs(p_[0]) for p_ in quad) < 1.5:
+                out.append(([[(la, gen.norm_lng(ln)) for la, ln in quad]], q[0], gen.norm_lng(q[1]), rr, res, kind_))
+            continue
         if mode == 0:      # slab between two adjacent rays
             t0, t1 = rng.uniform(0.1, 0.3), rng.uniform(0.6, 0.85)
             quad = [(c[0] + t * (v[0] - c[0]), c[1] + t * (v[1] - c[1])) for v, t in ((v0, t0), (v0, t1), (v1, t1), (v1, t0))]
@@ -113,6 +136,45 @@ def incell_cases(ctx, rng, tier):
         loops = [[(la, gen.norm_lng(ln)) for la, ln in quad]]
         qc = (sum(p[0] for p in quad) / 4, gen.norm_lng(sum(p[1] for p in quad) / 4))
         out.append((loops, qc[0], qc[1], EDGE[res], res, "in-cell-%d" % mode))
+    return out
+
+
+def micro_cases(ctx, rng, tier):
+    """resolutions 13-15: polygons a small fraction of a cell across that straddle a cell edge / corner (every polygon
+    edge e so short that e * (cell edge) is far below 1e-16 rad^2: absolute thresholds on cross products and
+    denominators of the crossing tests), and a cell-sized square whose outline is cut into hundreds of tiny segments"""
+    out = []
+    pts = []
+    per = 3 if tier == "quick" else 20
+    for res in (13, 14, 15):
+        for _ in range(per):
+            pts.append((rng.uniform(-1.3, 1.3), rng.uniform(-3.1, 3.1), res))
+    a = ctx.c([f"ll2c {f2bits(la)} {f2bits(ln)} {r}" for la, ln, r in pts], tag="micro")
+    cells = [int(x.split()[1], 16) for x in a if ok(x)]
+    g = ctx.c([f"boundary {gen.hx(h)}" for h in cells], tag="micro2")
+    for n_, (h, ab) in enumerate(zip(cells, g)):
+        if not ok(ab):
+            continue
+        bd = parse_boundary(ab)
+        res = (h >> 52) & 15
+        lng0 = bd[0][1]
+        bd = [(la, pu.shift_near(ln, lng0)) for la, ln in bd]
+        for t in (0.0, rng.uniform(0.2, 0.8)):
+            j = rng.randrange(len(bd))
+            v0, v1 = bd[j], bd[(j + 1) % len(bd)]
+            q = (v0[0] + t * (v1[0] - v0[0]), v0[1] + t * (v1[1] - v0[1]))
+            rr = rng.choice([0.2e-16 / EDGE[res], 0.8e-16 / EDGE[res], 0.02 * EDGE[res]])
+            poly = gen.ngon(q[0], q[1], rr, rng.choice([3, 4]), rng, jitter=0.2, phase=rng.uniform(0, 1))
+            out.append(([[(la, gen.norm_lng(ln)) for la, ln in poly]], q[0], gen.norm_lng(q[1]), rr, res, "micro"))
+        if n_ % per == 0 and (res == 15 or tier != "quick"):
+            rr = 1.2 * EDGE[res]
+            cor = gen.ngon(bd[0][0], bd[0][1], rr, 4, None, phase=rng.uniform(0, 1))
+            nseg = int(min(250, max(50, rr * 1.5 / (0.4e-16 / EDGE[res]))))
+            poly = []
+            for a_ in range(4):
+                P_, Q_ = cor[a_], cor[(a_ + 1) % 4]
+                poly += [(P_[0] + (Q_[0] - P_[0]) * i_ / nseg, P_[1] + (Q_[1] - P_[1]) * i_ / nseg) for i_ in range(nseg)]
+            out.append(([[(la, gen.norm_lng(ln)) for la, ln in poly]], bd[0][0], gen.norm_lng(bd[0][1]), rr, res, "densified"))
     return out
 
 
@@ -145,7 +207,7 @@ def evaluate(ctx, rng, tier, focus, budget, broken):
     nclass = {"full_must": 0, "full_mustnot": 0, "over_must": 0, "over_mustnot": 0}
     nprims = [0]
     ntrav = [0]
-    for (loops, lat, lng, radius, res, kind) in _cases(rng, tier) + incell_cases(ctx, rng, tier):
+    for (loops, lat, lng, radius, res, kind) in _cases(rng, tier) + incell_cases(ctx, rng, tier) + micro_cases(ctx, rng, tier):
         ps = gen.poly_str(loops)
         cand = candidates(ctx, lat, lng, radius, res, None)
         if cand is None or len(cand) > 4000:
@@ -192,7 +254,8 @@ def evaluate(ctx, rng, tier, focus, budget, broken):
             # the oracle treats cell edges as straight segments in lat/lng space (as the library's crossing test
             # does) while a polygon vertex is assigned to a cell on the sphere (latLngToCell): the two differ by up to
             # ~ L^2 tan(lat) / 8 for an edge of length L, which matters for coarse cells at high latitude
-            curv = max(EPS, 0.25 * EDGE[res] ** 2 * max(1.0, abs(math.tan(c[0]))))
+            eps_ = EPS if radius >= 0.3 * EDGE[res] else max(3e-12, 0.01 * radius)
+            curv = max(eps_, 0.25 * EDGE[res] ** 2 * max(1.0, abs(math.tan(c[0]))))
             amb = min(vd + [cd, pvd]) < curv or (0 < bdist < curv)
             if amb:
                 continue
